@@ -11,7 +11,7 @@ From RV Require Import Prelude.
 From Tensor Require Import Overlap.
 From LayoutOps Require Import ArrayModel LayoutOps ModelC09 Array_proofs Denote_proofs
   SliceRange_proofs Gather_proofs Perm_proofs Bcast_proofs Reshape_proofs Copy_proofs
-  Defined_proofs Clip_proofs Chain_proofs.
+  Defined_proofs Clip_proofs Append_proofs Chain_proofs.
 Open Scope N_scope.
 
 (* ================================================================ SliceRange *)
@@ -172,7 +172,21 @@ Theorem C09_clip_dim_denotes : forall st dm a b st' t,
   mdenote st' = ref_slice_axis t dm a b.
 Proof. exact clip_dim_denotes. Qed.
 
-(* For EVERY operation of the correspondence model (all 17 kinds): if the model (exact
+(* append: an empty owned tensor with capacity along [axis], filled by appending the two
+   halves view[.., :k, ..] and view[.., k:, ..] of a view, holds the view's tensor, which is
+   numpy.concatenate of the two reference halves; InsufficientCapacity is the documented
+   contract (no re-allocation) *)
+Theorem C09_append_denotes : forall st axis k cap st' t,
+  mdenote st = Some t -> apply_op false (OAppend axis k cap) st = Ok st' ->
+  mdenote st' = Some t /\ ref_apply (OAppend axis k cap) t (result_shape st') = Some t.
+Proof. exact append_denotes. Qed.
+
+Theorem C09_append_error : forall st axis k cap e t,
+  mdenote st = Some t -> apply_op false (OAppend axis k cap) st = Err e ->
+  e = InsufficientCapacity \/ ref_apply (OAppend axis k cap) t (t_shape t) = None.
+Proof. exact append_error. Qed.
+
+(* For EVERY operation of the correspondence model (all 18 kinds): if the model (exact
    arithmetic) succeeds on a state that denotes [t], the reference operation is defined on
    [t] and the new state denotes its result. *)
 Theorem C09_op_correct : forall o st st' t,
@@ -182,7 +196,7 @@ Proof. exact op_correct. Qed.
 
 (* ... and if it reports an error or panics, the reference operation is undefined, or the
    contiguity precondition of the view-only reshape fails, or (clip_dim) the harness could
-   not build an owned tensor with this layout *)
+   not build an owned tensor with this layout, or (append) the capacity is insufficient *)
 Theorem C09_op_error_means_undefined : forall o st e t,
   dims_small (v_dims (m_view st)) ->
   mdenote st = Some t -> apply_op false o st = Err e ->
